@@ -53,6 +53,9 @@ pub enum Resp {
     ErrAsset,
     /// connectivity error
     ErrConn,
+    /// rejected as rate limited; an open request with this script is throttled persistently (the
+    /// client gives the same answer however often that order is submitted)
+    ErrRateLimit,
 }
 
 #[derive(Debug, Clone, Copy, PartialEq, Eq, Serialize, Deserialize)]
@@ -72,6 +75,10 @@ pub struct ReqScript {
     /// request of the same kind for the same instrument already uses it
     #[serde(default)]
     pub shared_cid: bool,
+    /// the client order id is a long one (54 characters, '<strategy>-<uuid>-<leg>' style); all long
+    /// ids of a case agree on their first 40 characters
+    #[serde(default)]
+    pub long_cid: bool,
 }
 
 #[derive(Debug, Clone, Serialize, Deserialize)]
@@ -116,7 +123,15 @@ pub struct ScriptClient(pub ScriptClientConfig);
 
 impl ScriptClient {
     fn behaviour(&self, open: bool, instrument: &InstrumentNameExchange, cid: &ClientOrderId) -> Behaviour {
-        self.0.behaviours.lock().unwrap().get_mut(&(open, instrument.to_string(), cid.0.to_string())).and_then(|q| q.pop_front()).expect("scripted behaviour for every request")
+        let mut all = self.0.behaviours.lock().unwrap();
+        let queue = all.get_mut(&(open, instrument.to_string(), cid.0.to_string()));
+        match queue {
+            // a persistently throttled order: the same answer for every submission
+            Some(q) if open && q.front().is_some_and(|b| b.resp == Resp::ErrRateLimit) => q.front().cloned().expect("front"),
+            Some(q) if !q.is_empty() => q.pop_front().expect("front"),
+            // a request nobody scripted (the oracle reports it from `received`): answered at once
+            _ => Behaviour { delay_ms: Some(0), resp: Resp::Ok { filled: 0 }, asset_name: AssetNameExchange::new("unscripted") },
+        }
     }
 }
 
@@ -150,6 +165,7 @@ impl ExecutionClient for ScriptClient {
                 Resp::Ok { .. } => Ok(Cancelled { id: OrderId::new(format!("oid-{}", key.cid)), time_exchange: ts(T0_MS) }),
                 Resp::ErrAsset => Err(UnindexedOrderError::Rejected(ApiError::AssetInvalid(b.asset_name.clone(), "scripted".into()))),
                 Resp::ErrConn => Err(OrderError::Connectivity(ConnectivityError::Socket("scripted".into()))),
+                Resp::ErrRateLimit => Err(UnindexedOrderError::Rejected(ApiError::RateLimit)),
             };
             UnindexedOrderResponseCancel { key, state }
         }
@@ -169,6 +185,7 @@ impl ExecutionClient for ScriptClient {
                 Resp::Ok { filled } => Ok(Open { id: OrderId::new(format!("oid-{}", key.cid)), time_exchange: ts(T0_MS), filled_quantity: Decimal::from((filled as u32).min(QTY)) }),
                 Resp::ErrAsset => Err(UnindexedOrderError::Rejected(ApiError::BalanceInsufficient(b.asset_name.clone(), "scripted".into()))),
                 Resp::ErrConn => Err(OrderError::Connectivity(ConnectivityError::Socket("scripted".into()))),
+                Resp::ErrRateLimit => Err(UnindexedOrderError::Rejected(ApiError::RateLimit)),
             };
             Order { key, side: st.side, price: st.price, quantity: st.quantity, kind: st.kind, time_in_force: st.time_in_force, state }
         }
@@ -191,7 +208,7 @@ impl ExecutionClient for ScriptClient {
 
 pub struct ManagerExactlyOnce;
 
-fn req_script() -> impl Strategy<Value = (bool, u8, u32, Option<u32>, Resp, Option<u8>, bool)> {
+fn req_script() -> impl Strategy<Value = (bool, u8, u32, Option<u32>, Resp, Option<u8>, bool, bool)> {
     (
         prop::bool::weighted(0.65),
         any::<u8>(),
@@ -201,9 +218,11 @@ fn req_script() -> impl Strategy<Value = (bool, u8, u32, Option<u32>, Resp, Opti
             5 => (0u8..=4).prop_map(|filled| Resp::Ok { filled }),
             2 => Just(Resp::ErrAsset),
             1 => Just(Resp::ErrConn),
+            1 => Just(Resp::ErrRateLimit),
         ],
         prop::option::weighted(0.4, any::<u8>()),
         prop::bool::weighted(0.3),
+        prop::bool::weighted(0.15),
     )
 }
 
@@ -233,7 +252,7 @@ impl Check for ManagerExactlyOnce {
             }
         }
         if case.requests.is_empty() {
-            case.requests.push(ReqScript { open: true, inst_sel: 0, send_ms: 0, delay_ms: Some(1), resp: Resp::Ok { filled: 0 }, retry_of: None, shared_cid: false });
+            case.requests.push(ReqScript { open: true, inst_sel: 0, send_ms: 0, delay_ms: Some(1), resp: Resp::Ok { filled: 0 }, retry_of: None, shared_cid: false, long_cid: false });
         }
         case
     }
@@ -248,7 +267,7 @@ impl Check for ManagerExactlyOnce {
                 let t = timeout_ms as u64;
                 let mut requests: Vec<ReqScript> = reqs
                     .into_iter()
-                    .map(|(open, inst_sel, send_pm, delay_pm, resp, retry_of, shared_cid)| {
+                    .map(|(open, inst_sel, send_pm, delay_pm, resp, retry_of, shared_cid, long_cid)| {
                         let send_ms = (send_pm as u64 * 3 * t / 3000) as u32;
                         let delay_ms = delay_pm.map(|pm| {
                             let mut d = (pm as u64 * 2 * t / 2000) as u32;
@@ -258,12 +277,12 @@ impl Check for ManagerExactlyOnce {
                             }
                             d
                         });
-                        ReqScript { open, inst_sel, send_ms, delay_ms, resp, retry_of, shared_cid }
+                        ReqScript { open, inst_sel, send_ms, delay_ms, resp, retry_of, shared_cid, long_cid }
                     })
                     .collect();
                 // now and then a burst: dozens of requests outstanding at once (most never answered)
                 for k in 0..burst {
-                    requests.push(ReqScript { open: k % 4 != 3, inst_sel: k as u8, send_ms: (k % 3) as u32, delay_ms: if k % 5 == 0 { Some(1 + k as u32 % 7) } else { None }, resp: Resp::Ok { filled: 0 }, retry_of: None, shared_cid: false });
+                    requests.push(ReqScript { open: k % 4 != 3, inst_sel: k as u8, send_ms: (k % 3) as u32, delay_ms: if k % 5 == 0 { Some(1 + k as u32 % 7) } else { None }, resp: Resp::Ok { filled: 0 }, retry_of: None, shared_cid: false, long_cid: false });
                 }
                 ManagerCase { defs, exchange_sel, timeout_ms, requests }
             })
@@ -303,7 +322,7 @@ impl Check for ManagerExactlyOnce {
         let config = ScriptClientConfig::default();
         for (n, r) in case.requests.iter().enumerate() {
             let mut ins = own[r.inst_sel as usize % own.len()];
-            let mut cid = ClientOrderId::new(format!("c{n}"));
+            let mut cid = ClientOrderId::new(if r.long_cid { format!("strategy-alpha-6f1c2a9e-77b3-4d0e-9a41-leg-{n:04}-c{n}") } else { format!("c{n}") });
             if r.shared_cid && !reqs.iter().any(|q| q.open == r.open && q.inst == ins.key && q.cid.0 == "shared") {
                 cid = ClientOrderId::new("shared");
             }
@@ -457,6 +476,7 @@ impl Check for ManagerExactlyOnce {
                         (OrderState::Inactive(InactiveOrderState::FullyFilled), true, Resp::Ok { filled }) => filled as u32 >= QTY,
                         (OrderState::Inactive(InactiveOrderState::OpenFailed(OrderError::Rejected(ApiError::BalanceInsufficient(a, _)))), true, Resp::ErrAsset) => *a == r.quote_asset,
                         (OrderState::Inactive(InactiveOrderState::OpenFailed(OrderError::Connectivity(ConnectivityError::Socket(_)))), true, Resp::ErrConn) => true,
+                        (OrderState::Inactive(InactiveOrderState::OpenFailed(OrderError::Rejected(ApiError::RateLimit))), true, Resp::ErrRateLimit) => true,
                         _ => false,
                     };
                     if !ok {
@@ -475,6 +495,7 @@ impl Check for ManagerExactlyOnce {
                         (Ok(_), true, Resp::Ok { .. }) => true,
                         (Err(OrderError::Rejected(ApiError::AssetInvalid(a, _))), true, Resp::ErrAsset) => *a == r.quote_asset,
                         (Err(OrderError::Connectivity(ConnectivityError::Socket(_))), true, Resp::ErrConn) => true,
+                        (Err(OrderError::Rejected(ApiError::RateLimit)), true, Resp::ErrRateLimit) => true,
                         _ => false,
                     };
                     if !ok {
@@ -517,6 +538,8 @@ impl Check for ManagerExactlyOnce {
         rep.class_if(ex_idx.index() > 0, "manager_of_non_first_exchange");
         rep.class_if(reqs.iter().any(|r| r.delay_ms.is_none()), "client_never_answers");
         rep.class_if(reqs.iter().any(|r| r.nth > 0), "cancel_repeated_for_same_order");
+        rep.class_if(reqs.iter().filter(|r| r.cid.0.len() > 36).count() >= 2, "two_client_order_ids_longer_than_36_characters");
+        rep.class_if(reqs.iter().any(|r| r.open && r.resp == Resp::ErrRateLimit && r.delay_ms.is_some_and(|d| d < timeout as u64)), "open_rejected_as_rate_limited");
         rep.class_if(reqs.iter().any(|r| reqs.iter().any(|q| q.open == r.open && q.cid == r.cid && q.inst != r.inst)), "client_order_id_shared_by_two_instruments");
         rep.class_if(reqs.iter().any(|r| r.nth > 0 && reqs.iter().any(|q| !q.open && q.cid == r.cid && q.nth + 1 == r.nth && !q.delay_ms.is_some_and(|d| d < timeout as u64))), "cancel_repeated_after_timeout");
         rep.nontrivial = max_outstanding >= 3 && timeouts > 0 && responses > 0 && out_of_send_order;
@@ -525,7 +548,7 @@ impl Check for ManagerExactlyOnce {
 }
 
 pub fn run(ctx: &mut Ctx) {
-    ctx.rule = "manager_exactly_once: 2..3 exchanges, the manager serves a generated one; timeout T in [10 ms, 5 s]; 1..16|32 requests (plus, in one case of twenty, a burst of 33..69 requests within 2 ms, most never answered) (65% open, 35% cancel; 40% of the cancels repeat an earlier cancel's order id once that one is resolved) with send offsets in [0,3T], client delay in [0,2T] or never (15%), |delay - T| >= 1 ms; responses: ok (open with fill 0..4 of 4, i.e. incl. fully filled), rejected naming an asset of the exchange, connectivity error. Run under tokio's paused clock. non-trivial = >= 3 requests outstanding at once AND >= 1 timeout AND >= 1 in-time response AND at least one answer out of send order; distinct by hash of the case.".into();
+    ctx.rule = "manager_exactly_once: 2..3 exchanges, the manager serves a generated one; timeout T in [10 ms, 5 s]; 1..16|32 requests (plus, in one case of twenty, a burst of 33..69 requests within 2 ms, most never answered) (65% open, 35% cancel; 40% of the cancels repeat an earlier cancel's order id once that one is resolved) with send offsets in [0,3T], client delay in [0,2T] or never (15%), |delay - T| >= 1 ms; responses: ok (open with fill 0..4 of 4, i.e. incl. fully filled), rejected naming an asset of the exchange, connectivity error, rejected as rate limited (persistently for an open); 15% of the client order ids are 54 characters long and agree on their first 40. Run under tokio's paused clock. non-trivial = >= 3 requests outstanding at once AND >= 1 timeout AND >= 1 in-time response AND at least one answer out of send order; distinct by hash of the case.".into();
     ctx.assumptions = vec![
         "tokio test-util paused clock: virtual time advances only when every task is idle".into(),
         "client responses name assets/instruments known to the exchange's map (an un-indexable response is filtered by design and out of scope)".into(),
